@@ -921,6 +921,18 @@ Fixpoint check_replies (limit : Z) (pw : bytes) (reqs : list (list bytes)) (reps
         else viol "reply-does-not-belong-to-the-request-at-its-position" [snat i; SB r; SL (map SB q)]
   end.
 
+(* C13: "unknown proxy pool" answers a request only when a node named a node the proxy has no pool
+   for (key marker movx; or a topology change took the pool away): a redirect to a known node is
+   followed *)
+Fixpoint redirect_refused (reqs : list (list bytes)) (reps : list bytes) (i : nat) : option sx :=
+  match reqs, reps with
+  | q :: qs, r :: rs =>
+      if (beqb r ErrUnKnownProxyPoolError && negb (existsb (fun k => find_sub k (bs "movx")) (tl q)))%bool
+      then Some (viol "redirect-to-a-known-node-refused" [snat i; SL (map SB q)])
+      else redirect_refused qs rs (S i)
+  | _, _ => None
+  end.
+
 Definition last_obs (obs : list sx) : sx := last obs (SL []).
 
 (* reads: the command types route may send to a replica (below the write marker, not a cursor scan) *)
@@ -1087,7 +1099,10 @@ Definition o_loop (a : sx) : sx :=
                 match junk with
                 | _ :: _ => viol "stray-bytes-after-the-last-reply" [SN cid; SB junk]
                 | [] =>
-                    match check_replies limit pw reqs reps 0 with
+                    match (match check_replies limit pw reqs reps 0, tables with
+                           | SN 1%Z, [_] => match redirect_refused reqs reps 0 with Some v => v | None => ok end
+                           | v, _ => v
+                           end) with
                     | SN 1%Z =>
                         (* C15 / C01 completeness at quiescence: an open, idle client has every reply *)
                         if (negb (Z.eqb op 0) && (length reps <? length reqs)%nat
